@@ -19,7 +19,7 @@ RULE = ('containers reached by histories (binary and multi-component, solvent pr
         'postcondition evaluations; non-trivial = solvent actually added; distinct by (composition class, unit pair, '
         'request, contents)')
 ASSUMPTIONS = BASE_ASSUMPTIONS + ['dilution of enzyme solutes is excluded (the library declares it unsupported)',
-                                  'known finding KF03: fill_to with a solvent that has no measure in the target unit']
+                                  'fill_to with a solvent that has no measure in the target unit must be refused (former known finding KF03, repaired 91d2819)']
 PAIRS = [('mol', 'L'), ('g', 'L'), ('g', 'g'), ('mol', 'mol'), ('mol', 'g'), ('L', 'L'), ('g', 'mol'), ('L', 'g'), ('L', 'mol')]
 
 
@@ -202,7 +202,7 @@ def constructive(rng, case, idx):
             fs = rng.choice(liqs)
             if rng.random() < 0.25:
                 # any substance may be what a container is filled up with: solids and enzymes too (where they have a
-                # measure in the unit of the target; without one it is the recorded finding KF03)
+                # measure in the unit of the target; without one the call must be refused - the former finding KF03)
                 alt = [s_ for s_ in w.subs if R.per(s_, base) > 0 and R.per(s_, 'L') > 0]
                 if alt:
                     fs = rng.choice(alt)
